@@ -599,10 +599,16 @@ func cbmRoundInputs(c *Ctx, id string) {
 			okU = reported(errorSinks(call))
 			last := call.Common().Args[len(call.Common().Args)-1]
 			fromParam := strings.Contains(w.Origin(last), "param(")
-			if a := asAlloc(last); a != nil {
-				if sv, ok := singleStore(a); ok {
-					if _, isP := unwrap(sv).(*ssa.Parameter); isP {
-						fromParam = true // &cas of the parameter
+			if a, isA := unwrap(last).(*ssa.Alloc); isA && a.Referrers() != nil {
+				nSt := 0
+				for _, r := range *a.Referrers() {
+					if st, isSt := r.(*ssa.Store); isSt && st.Addr == ssa.Value(a) {
+						nSt++
+						if _, isP := unwrap(st.Val).(*ssa.Parameter); isP && nSt == 1 {
+							fromParam = true // &cas of the parameter
+						} else {
+							fromParam = false
+						}
 					}
 				}
 			}
